@@ -641,7 +641,20 @@ namespace Pistache::Http::Header
         tokens_.emplace_back(token);
     }
 
-    void Server::parse(const std::string& token) { tokens_.push_back(token); }
+    void Server::parse(const std::string& data)
+    {
+        // write() joins the tokens with blanks
+        std::string::size_type start = 0;
+        while (start < data.size())
+        {
+            auto end = data.find(' ', start);
+            if (end == std::string::npos)
+                end = data.size();
+            if (end > start)
+                tokens_.push_back(data.substr(start, end - start));
+            start = end + 1;
+        }
+    }
 
     void Server::write(std::ostream& os) const
     {
